@@ -30,6 +30,9 @@ MUTATIONS = [
     {"name": "c12_no_munmap_on_drop", "props": ["C12"], "edits": [(COMMON, "                    libc::munmap(self.jit_memory as *mut c_void, self.jit_size);", "                    let _ = self.jit_size;")]},
     {"name": "c12_munmap_wrong_address", "props": ["C12"], "edits": [(COMMON, "libc::munmap(self.jit_memory as *mut c_void, self.jit_size);", "libc::munmap(self.jit_memory.add(4096) as *mut c_void, self.jit_size);")]},
     {"name": "c11_rejected_mapping_not_returned", "props": ["C11", "C12"], "edits": [(COMMON, "                } else {\n                    unsafe { libc::munmap(ptr, code_size) };\n                }", "                }")]},
+    {"name": "c11_allocator_accepts_exact_range", "props": ["C11"], "edits": [(COMMON, "                if diff < max_range {\n                    return ptr as *mut u8;\n                } else {\n                    unsafe { libc::munmap(ptr, code_size) };", "                if diff <= max_range {\n                    return ptr as *mut u8;\n                } else {\n                    unsafe { libc::munmap(ptr, code_size) };")]},
+    {"name": "c11_arm64_restore_one_word_short", "props": ["C02"], "edits": [(ARM64, "        original_bytes.to_vec(),\n        PATCH_SIZE,", "        original_bytes.to_vec(),\n        PATCH_SIZE - 4,")]},
+    {"name": "c17_arm_patch_written_without_flush", "props": ["C17"], "edits": [(ARM, "            patch_function(src_ptr as *mut u8, &patch);", "            std::ptr::copy_nonoverlapping(patch.as_ptr(), src_ptr as *mut u8, patch.len());")]},
     # ---- C17
     {"name": "c17_no_flush_in_inject", "props": ["C17"], "edits": [(COMMON, "    clear_cache(dest, dest.add(asm_code.len()));", "    let _ = dest;")]},
     {"name": "c17_flush_range_one_short", "props": ["C17"], "edits": [(COMMON, "    clear_cache(dest, dest.add(asm_code.len()));", "    clear_cache(dest, dest.add(asm_code.len() - 1));")]},
